@@ -194,8 +194,20 @@ fn resolve_mates(records: &mut [Record]) -> io::Result<()> {
     let mut mate_indices: Vec<_> = records
         .iter()
         .enumerate()
-        .map(|(i, record)| record.mate_distance.map(|len| i + len + 1))
-        .collect();
+        .map(|(i, record)| {
+            record
+                .mate_distance
+                .map(|len| {
+                    i.checked_add(len)
+                        .and_then(|n| n.checked_add(1))
+                        .filter(|&mate_index| mate_index < records.len())
+                        .ok_or_else(|| {
+                            io::Error::new(io::ErrorKind::InvalidData, "invalid mate distance")
+                        })
+                })
+                .transpose()
+        })
+        .collect::<io::Result<_>>()?;
 
     for i in 0..records.len() {
         let record = &mut records[i];
@@ -606,6 +618,27 @@ mod tests {
         ));
 
         Ok(())
+    }
+
+    #[test]
+    fn test_resolve_mates_with_invalid_mate_distance() {
+        let mut records = vec![
+            Record {
+                id: 1,
+                cram_flags: Flags::MATE_IS_DOWNSTREAM,
+                mate_distance: Some(1),
+                ..Default::default()
+            },
+            Record {
+                id: 2,
+                ..Default::default()
+            },
+        ];
+
+        assert!(matches!(
+            resolve_mates(&mut records),
+            Err(e) if e.kind() == io::ErrorKind::InvalidData
+        ));
     }
 
     #[test]
